@@ -80,6 +80,14 @@ def apply(obj, ev: dict):
         U = [bind.lay(np.array(m, dtype=(fk if a["asK"] else f))) for m in a["U"]]
         if a["asK"]:
             U = ttb.ktensor(U, np.array(a["w"], dtype=fk))
+        if isinstance(obj, (ttb.tensor, ttb.sptensor)) and not a["asK"] and f in (np.int64, np.int32):
+            # the products are linear in the tensor: integer-typed factor matrices against a tensor holding halves
+            # (X = 2 (X / 2)); the factor 2 is put back by the harness
+            half = ttb.tensor(obj.data * 0.5) if isinstance(obj, ttb.tensor) else \
+                (ttb.sptensor(obj.subs.copy(), obj.vals * 0.5, obj.shape) if obj.nnz else obj)
+            if op == "mttkrp":
+                return np.asarray(half.mttkrp(U, a["n"])) * 2.0
+            return [np.asarray(m) * 2.0 for m in half.mttkrps(U)]
         return obj.mttkrp(U, a["n"]) if op == "mttkrp" else obj.mttkrps(U)
     if op == "ttt":
         other = bind.gamma(a["other"])
